@@ -1423,8 +1423,54 @@ class C03(Prop):
                 lines.append("mdef FN%d(%s)%s%s" % (m, sep.join(params), rng.choice(["", " ", "  "]), "".join(body)))
         return E.Case(cid, lines, {"origin": "generated", "family": "mdef"})
 
+    def fam_strswitch(self, rng, cid):
+        """string switches with and without `case 0:`; keys that are literals (interned by the compiler), interned by another
+        object (string literals of /c03/base.c, function names), built at run time (not in the shared string table), built at
+        run time but equal to a label, the empty string, ints; each next to its if-chain"""
+        pool = [b"a", b"bb", b"", b"zed", b"q", b"north", b"n", b"no", b"key_1", b"a\xc3\xa9", b"0", b"h_add"]
+        labs = rng.shuffle(pool)[:rng.range(1, 6)]
+        labels = [("str", l) for l in labs]
+        if rng.chance(3, 5):
+            labels.insert(rng.below(len(labels) + 1), ("num", 0))
+        arms = [(lab, [("ret", I(k + 1))]) for k, lab in enumerate(labels)]
+        hasd = rng.chance(2, 3)
+        if hasd:
+            arms.insert(rng.below(len(arms) + 1), ("default", [("ret", I(-1))]))
+        chain = "nop"
+        for lab, ss in reversed([a for a in arms if a[0] != "default"]):
+            cond = ("bin", "eq", L(A), S(lab[1])) if lab[0] == "str" else ("bin", "eq", L(A), I(0))
+            chain = ("if", cond, ss[0], chain)
+        tail = ([("ret", I(-1))] if hasd else []) + [("ret", I(0))]
+        fns, same = [], []
+        def add(setup, with_chain=True):
+            fns.append(setup + [("switch", L(A), arms), ("ret", I(0))])
+            if with_chain:
+                fns.append(setup + [chain] + tail)
+                same.append([len(fns) - 2, len(fns) - 1])
+        lab = rng.choice(labs)
+        # literal key equal to a label / equal to none
+        add([("expr", ("asg", L(A), S(lab)))])
+        add([("expr", ("asg", L(A), S(rng.choice([b"nope", b"zz", b"h_sum", b"create"]))))])
+        # built at run time, equal to no interned string (the counter makes it unique): findstring fails
+        add([("expr", ("asg", L(LI), I(rng.range(100, 999)))), ("expr", ("asg", L(A), ("bin", "add", S(b"rt_"), L(LI))))])
+        add([("expr", ("asg", L(B), S(b"x"))), ("expr", ("asg", L(A), ("bin", "add", ("bin", "add", L(B), L(B)), S(rng.choice([b"y7", b"_", b"q9"])))))])
+        # built at run time but equal to a label
+        if len(lab) >= 2:
+            add([("expr", ("asg", L(B), S(lab[:1]))), ("expr", ("asg", L(A), ("bin", "add", L(B), S(lab[1:]))))])
+        else:
+            add([("expr", ("asg", L(B), S(lab + b"#"))), ("expr", ("asg", L(A), ("rng", False, False, L(B), I(0), I(len(lab) - 1))))])
+        # equal to a string interned only by another object (a literal of the helper functions / a function name)
+        add([("expr", ("asg", L(B), S(b"le"))), ("expr", ("asg", L(A), ("bin", "add", L(B), S(b"n"))))])
+        # the empty string built at run time, the int 0, another int, a real
+        add([("expr", ("asg", L(B), S(b"ab"))), ("expr", ("asg", L(A), ("rng", False, False, L(B), I(1), I(0))))])
+        add([("expr", ("asg", L(A), I(0)))])
+        add([("expr", ("asg", L(A), I(rng.choice([1, -1, 2 ** 32]))))], with_chain=False)
+        add([("expr", ("asg", L(A), Fl(0.0)))], with_chain=False)
+        fns.append([("expr", ("asg", G(0), ("bin", "add", S(b"rt"), I(rng.range(1, 99))))), ("switch", G(0), arms), ("ret", I(0))])
+        return make_case(cid, fns, same=same, meta={"origin": "generated", "family": "strswitch"})
+
     FAMS = [("fam_binop", 9), ("fam_unop", 2), ("fam_incdec", 3), ("fam_index", 5), ("fam_range", 5), ("fam_lvalue", 6),
-            ("fam_switch", 6), ("fam_loop", 6), ("fam_assignop", 5), ("fam_literal", 2), ("fam_rewrite", 4), ("fam_macro", 3), ("fam_calls", 5), ("fam_mapalg", 7), ("fam_maptrace", 5), ("fam_macrosubst", 7), ("fam_mdef", 4)]
+            ("fam_switch", 6), ("fam_loop", 6), ("fam_assignop", 5), ("fam_literal", 2), ("fam_rewrite", 4), ("fam_macro", 3), ("fam_calls", 5), ("fam_mapalg", 7), ("fam_maptrace", 5), ("fam_macrosubst", 7), ("fam_mdef", 4), ("fam_strswitch", 6)]
 
     def generate(self, rng, n, tier):
         out = []
@@ -1504,6 +1550,11 @@ class C03(Prop):
         mk("macro-prefix-param", [[("expr", ("asg", L(A), I(3))), ("ret", Arr([("macro", "PICK", [I(10), I(20)], I(20)), ("macro", "SCALE", [I(5)], ("bin", "mul", L(A), I(5)))]))],
                                   [("expr", ("asg", L(A), I(3))), ("ret", Arr([I(20), ("bin", "mul", L(A), I(5))]))]],
            defines=["#define PICK(ab, a) (a)", "#define SCALE(a1) (a * (a1))"])
+        sarms = [(("str", b"a"), [("ret", I(1))]), (("num", 0), [("ret", I(2))]), ("default", [("ret", I(-1))])]
+        mk("strswitch-case0-runtime-key", [[("expr", ("asg", L(LI), I(7))), ("expr", ("asg", L(A), ("bin", "add", S(b"rt_"), L(LI)))), ("switch", L(A), sarms), ("ret", I(0))],
+                                           [("expr", ("asg", L(LI), I(7))), ("expr", ("asg", L(A), ("bin", "add", S(b"rt_"), L(LI)))),
+                                            ("if", ("bin", "eq", L(A), S(b"a")), ("ret", I(1)), ("if", ("bin", "eq", L(A), I(0)), ("ret", I(2)), "nop")), ("ret", I(-1))],
+                                           [("expr", ("asg", L(A), I(0))), ("switch", L(A), sarms), ("ret", I(0))]], same=[[0, 1]])
         mk("diveq-int-real-big", [[("expr", ("asg", L(A), I(2 ** 40))), ("expr", ("aop", "div", L(A), Fl(1.0))), ("ret", L(A))]])
         return Bc
 
